@@ -102,6 +102,7 @@ func (e *Engine) verifyFunc(ct *Contract) (res *FuncVC) {
 	c.epochAlloc[st.epoch] = st.alloc
 	st.ghost["cpu"] = "0"
 	st.ghost["mem"] = "0"
+	st.ghost["sent"] = "0"
 	var args []Val
 	for _, p := range fn.Params {
 		srt := c.sorts.sortOf(p.Type())
